@@ -125,7 +125,7 @@ def execute(case, force_real=False):
 def full_cases():
     from vlib import cfggen
 
-    return cfggen.full_config(modes=("scalar", "scalar", "blobs", "blobs2", "blobs_auto", "blobs_str", "blobs_rec", "blobs_arr"), pools=(None,))
+    return cfggen.full_config(modes=("scalar", "scalar", "blobs", "blobs2", "blobs_auto", "blobs_str", "blobs_rec", "blobs_arr", "blobs_f4", "blobs_int"), pools=(None,))
 
 
 def run_full(case, mode, pool):
@@ -153,9 +153,30 @@ def run_full(case, mode, pool):
     with quiet():
         lib_call(s.run, n_total=2 * case["n_particles"], progress=False, what=f"Sampler.run [{label}]")
     o = lib_call(s.posterior, trim_importance_weights=False, what="posterior")
+    snap = history_snapshot(st_)
+    if pool is None and case["rs_value"] % 2 == 0:
+        # the count is part of the state: saved, loaded into another sampler object and continued from there by sample()
+        import os
+
+        from vlib.runs import scratch_dir
+
+        with scratch_dir() as od:
+            path = os.path.join(od, "state.pkl")
+            with quiet():
+                lib_call(s.save_state, path, what="Sampler.save_state")
+            saved = int(st_.get_current("calls"))
+            t2 = cfggen.make_target(c2)
+            s2, _ = cfggen.build(c2, target=t2, pool=None)
+            with quiet():
+                lib_call(s2.load_state, path, what="Sampler.load_state")
+                lib_call(s2.sample, what="Sampler.sample [after load_state]")
+            got = int(s2.state.get_current("calls"))
+            if got != saved + t2.n_points:
+                raise Violation(f"[{label}] after load_state() of a state with calls={saved} and one sample() that evaluated the likelihood at "
+                                f"{t2.n_points} points the reported calls are {got}, not {saved + t2.n_points}", sig={"kind": "calls-miscounted"})
     if hasattr(pobj, "shutdown"):
         pobj.shutdown()
-    return history_snapshot(st_), np.asarray(o[1]), float(s.evidence()[0])
+    return snap, np.asarray(o[1]), float(s.evidence()[0])
 
 
 def execute_full(case):
